@@ -45,6 +45,7 @@ class Live(object):
         b.conf.supybot.reply.whenNotCommand.setValue(True)
         bot.register_welcome(b)
         self.log = []
+        self._mcache = {}
         live = self
         if not getattr(self.cb.Commands.callCommand, '_vt_c14', False):
             orig = self.cb.Commands.callCommand
@@ -61,6 +62,12 @@ class Live(object):
         self.records = self.introspect()
 
     # ---- plugin table for the model ----
+    def methods_cached(self, cb):
+        k = id(cb)
+        if k not in self._mcache:
+            self._mcache[k] = set(self.methods_of(cb))
+        return self._mcache[k]
+
     def methods_of(self, cb):
         out = []
         for attr in dir(cb):
@@ -368,6 +375,33 @@ def call_id(call):
             return a
     return None
 
+def ambiguous_expected(live, c):
+    """the statement's notion of an ambiguous bare name, from the live objects: at least two loaded plugins
+    have the enabled command `c`, nothing (plugin or command group) is called `c`, no default plugin
+    resolves it, and the important plugins do not single out one candidate"""
+    cn = live.cb.canonicalName
+    dis = live.cb.Commands._disabled
+    cands = [P for P in live.top if c in live.methods_cached(P) and not dis.disabled(c, P.name())]
+    if len(cands) < 2:
+        return False
+    if any(P.canonicalName() == c for P in live.top) or any(sub.canonicalName() == c for P in live.top for sub in P.cbs):
+        return False
+    dp = live.conf.supybot.commands.defaultPlugins
+    if c in dp._children:
+        v = dp._children[c]()
+        if v and live.b.irc.getCallback(v) in cands:
+            return False
+    imp = [cn(x) for x in dp.importantPlugins()]
+    if len([P for P in cands if P.canonicalName() in imp]) == 1:
+        return False
+    return True
+
+def oracle_ambiguous(live, res):
+    for (p, c, a) in res['calls']:
+        if len(c) == 1 and ambiguous_expected(live, c[0]):
+            return False, 'the ambiguous bare name %r ran in plugin %s (args %r) instead of being reported' % (c[0], p, a)
+    return True, ''
+
 def oracle_order(tokens, res, world):
     """at most once, inner first / left to right (= a prefix of the post-order), nothing deeper than the maximum"""
     ids = [node_id(n) for (_, n) in postorder(tokens)]
@@ -451,6 +485,8 @@ def explore(live, r, n_worlds, per_world, corpus=()):
         def add_eval(tokens, kind, check_full=False):
             res = live.run(tokens, private=False)
             ok, msg = oracle_order(tokens, res, w)
+            if ok:
+                ok, msg = oracle_ambiguous(live, res)
             if ok and check_full:
                 ok, msg = oracle_full(tokens, res, w)
             impl = cut_foreign(canon_result(res), res['calls'], '%d' % res['ignored'])
